@@ -327,6 +327,58 @@ func c02CompleteThenLoss(tier string, seed int64, idx, j int, res *core.Result) 
 	finish(tier, b, h, res)
 }
 
+// c02WriteFault: one transport write of the caller's stream fails (once; the connection stays
+// healthy). The send that hit it must report the failure - or the message must arrive: whatever the
+// handler received is a gap-free prefix of what the caller's sends reported as sent.
+func c02WriteFault(tier string, seed int64, idx, j int, res *core.Result) {
+	kind := []string{"client", "bidi"}[j%2]
+	n := 4 + j%4
+	k := 1 + j%n // which of the caller's writes after the open fails
+	res.Sample = map[string]any{"family": "one-shot-write-fault", "kind": kind, "messages": n, "failing_write": k}
+	setGMP([]int{1, 4, 16}[j%3])
+	h := bed.NewHooks()
+	h.Install()
+	b := bed.New(bed.Opts{Serialise: j%2 == 0, Cap: []int{0, 8}[(j/2)%2]})
+	cc := b.Conns[0]
+	gates := NewGates()
+	tag := fmt.Sprintf("wf%d", idx)
+	hrec := &SideRec{}
+	hops := []Op{{Op: "recvAll"}}
+	if kind == "client" {
+		hops = append(hops, Op{Op: "send", N: 1, Size: 17})
+	}
+	b.Impl.SetStream(tag, func(t, kd string, ss grpc.ServerStream) error { return runHandlerProg(ss, t, hops, hrec, gates) })
+	end := b.Links[0].A
+	end.FailWritesAt(end.Writes() + k) // the open is the next write
+	cops := []Op{{Op: "send", N: n, Size: 17}, {Op: "closeSend"}, {Op: "recvAll"}}
+	cr := StartClient(context.Background(), func() {}, nil, cc, kind, tag, nil, cops, nil, gates, nil, nil)
+	st, snap := settle(tier, cr.IsDone)
+	if st == "stuck" {
+		res.ViolateD("stream-operation-never-returns/one-shot-write-fault", map[string]any{"goat_goroutines": goatParked(snap)}, "a stream one of whose writes failed never finishes on the caller's side")
+	} else if st == "timeout" {
+		res.Verdict, res.Note = core.Inconclusive, "watchdog"
+	} else {
+		quiet(tier)
+		outcome := callerOutcome(cr.Rec)
+		hrec.mu.Lock()
+		cr.Rec.mu.Lock()
+		got, sent := hrec.Recvd, cr.Rec.Sent
+		if !isPrefix(got, sent) {
+			res.Violate("handler-sequence-differs/one-shot-write-fault", "write %d of the caller's stream failed in the transport: the handler received %d messages that are not a gap-free prefix of the %d messages whose Send returned nil", k, len(got), len(sent))
+		} else if len(sent) > k-1 && outcome == io.EOF {
+			// every Send reported success although one write failed, and the stream completed
+			if len(got) != len(sent) {
+				res.Violate("handler-sequence-differs/one-shot-write-fault", "the stream completed successfully with %d of %d sent messages received", len(got), len(sent))
+			}
+		}
+		cr.Rec.mu.Unlock()
+		hrec.mu.Unlock()
+		res.Stat("one_shot_write_fault_cases", 1)
+	}
+	res.NonTrivial = true
+	finish(tier, b, h, res)
+}
+
 // c02BinaryMetadata: a stream whose handler sets binary (-bin) response header and trailer
 // metadata, with values whose base64 forms differ between alphabets and need padding. The stream
 // completes successfully: the caller must get every message, io.EOF, and the values unchanged.
@@ -432,6 +484,11 @@ func c02BinaryMetadata(tier string, seed int64, idx, j int, res *core.Result) {
 }
 
 func c02Run(tier string, seed int64, idx int) *core.Result {
+	if base := tierN(tier, 600, 24000) + tierN(tier, 18, 180) + tierN(tier, 16, 128) + tierN(tier, 4, 24) + tierN(tier, 18, 108); idx >= base {
+		res := &core.Result{Verdict: core.Held, Sig: fmt.Sprintf("wf/%d", idx)}
+		c02WriteFault(tier, seed, idx, idx-base, res)
+		return res
+	}
 	if base := tierN(tier, 600, 24000) + tierN(tier, 18, 180) + tierN(tier, 16, 128) + tierN(tier, 4, 24); idx >= base {
 		res := &core.Result{Verdict: core.Held, Sig: fmt.Sprintf("bmd/%d", idx)}
 		c02BinaryMetadata(tier, seed, idx, idx-base, res)
@@ -659,15 +716,15 @@ func init() {
 	core.Register(&core.Prop{
 		ID:    "C02",
 		Level: "exploration",
-		Rule:  "cases = 1..32 concurrent streams on one connection, each a (client program, handler program) pair from 9 admissible families over the 3 stream kinds with counts 0..200 and sizes {0,1,17,1Ki,4Ki,64Ki}; every third case is a directed window: one stream whose terminal receive (or a late send / late half-close) is parked by a hook between its done-check and its blocking step until the stream has been torn down. Non-trivial = the window rendezvous fired, or >=2 streams share the connection, or the stream has separate sender and receiver goroutines; distinct = distinct generated case descriptors. Plus (quick 18, thorough 180) cases over the shipped websocket transport on loopback sockets whose writes stall half-way: 2..8 ping-pong bidi streams of 2..5 messages (0..64 KiB) with 2..16 unary calls alongside; every stream must deliver every echo in order and end with io.EOF (30 s wall bound = inconclusive). Plus (quick 16, thorough 128) complete-then-connection-end cases: the handler sends a message and returns success, the caller starts receiving only after message and trailer were read by the client and the connection then ended (io.EOF, wrapped io.EOF, custom error, context.Canceled): it must get the message and io.EOF. Plus (quick 4, thorough 24) cases over the shipped HTTP transport (two instances behind loopback servers, fake clock): the handler bursts 5..8 messages and returns success, the caller starts receiving after the burst has backed up and 3 s of the transport clock have passed: all messages, then io.EOF. Plus (quick 18, thorough 108) streams whose handler sets binary (-bin) header and/or trailer metadata with values that need base64 padding and differ between base64 alphabets: all messages, io.EOF and the values unchanged. In the HTTP family one message of every other case is 5 MiB.",
+		Rule:  "cases = 1..32 concurrent streams on one connection, each a (client program, handler program) pair from 9 admissible families over the 3 stream kinds with counts 0..200 and sizes {0,1,17,1Ki,4Ki,64Ki}; every third case is a directed window: one stream whose terminal receive (or a late send / late half-close) is parked by a hook between its done-check and its blocking step until the stream has been torn down. Non-trivial = the window rendezvous fired, or >=2 streams share the connection, or the stream has separate sender and receiver goroutines; distinct = distinct generated case descriptors. Plus (quick 18, thorough 180) cases over the shipped websocket transport on loopback sockets whose writes stall half-way: 2..8 ping-pong bidi streams of 2..5 messages (0..64 KiB) with 2..16 unary calls alongside; every stream must deliver every echo in order and end with io.EOF (30 s wall bound = inconclusive). Plus (quick 16, thorough 128) complete-then-connection-end cases: the handler sends a message and returns success, the caller starts receiving only after message and trailer were read by the client and the connection then ended (io.EOF, wrapped io.EOF, custom error, context.Canceled): it must get the message and io.EOF. Plus (quick 4, thorough 24) cases over the shipped HTTP transport (two instances behind loopback servers, fake clock): the handler bursts 5..8 messages and returns success, the caller starts receiving after the burst has backed up and 3 s of the transport clock have passed: all messages, then io.EOF. Plus (quick 18, thorough 108) streams whose handler sets binary (-bin) header and/or trailer metadata with values that need base64 padding and differ between base64 alphabets: all messages, io.EOF and the values unchanged. In the HTTP family one message of every other case is 5 MiB. Plus (quick 16, thorough 96) streams one of whose caller-side transport writes fails once: what the handler received is a gap-free prefix of the messages whose Send returned nil. In the HTTP family every fourth case loses the HTTP response of one POST after the envelope was delivered: no message may arrive twice.",
 		Plan: func(tier string, seed int64) int {
-			return tierN(tier, 600, 24000) + tierN(tier, 18, 180) + tierN(tier, 16, 128) + tierN(tier, 4, 24) + tierN(tier, 18, 108)
+			return tierN(tier, 600, 24000) + tierN(tier, 18, 180) + tierN(tier, 16, 128) + tierN(tier, 4, 24) + tierN(tier, 18, 108) + tierN(tier, 16, 96)
 		},
 		Run:         c02Run,
 		MaxStats:    []string{"max_streams_per_connection"},
 		Assumptions: []string{"only admissible program pairs (no pair that deadlocks by construction under zero buffering) are generated", "proxy topology limited to <=3 ping-pong style streams (below the proxy buffer)"},
 		RequiredStats: func(string) []string {
-			return []string{"window_rendezvous_fired", "streams_with_two_client_goroutines", "hook:cs.recv.window", "hook:cs.send.window", "ws_streams_checked", "complete_then_connection_end_cases", "http_slow_receiver_cases", "binary_response_metadata_cases"}
+			return []string{"window_rendezvous_fired", "streams_with_two_client_goroutines", "hook:cs.recv.window", "hook:cs.send.window", "ws_streams_checked", "complete_then_connection_end_cases", "http_slow_receiver_cases", "binary_response_metadata_cases", "one_shot_write_fault_cases"}
 		},
 	})
 }
